@@ -697,3 +697,533 @@ Section Examples.
       = Some [(1%nat, false, true); (0%nat, true, true)].
   Proof. vm_compute. repeat split; reflexivity. Qed.
 End Examples.
+
+(* ===== 6. the glue around the coefficients (Model/AmplitudesGlue.v, Proofs/AmplitudesGlueProofs.v) ================
+   Reading guide
+     selector = the list of the items of the index tuple given to ModelAmplitudes.__getitem__ (an index that is not a
+         tuple is the one-item list): GInt z | GSlice start stop step | GList l | GMask m | GDots (Ellipsis) | GNone.
+     gres = GOk value | GRaise kind (EIndex, EValue, EKey, EAssertion, EType; EUnmodelled is not an exception: the model
+         declines — numba reading out of bounds, both axes indexed in the matrix class, (None, k)).  arr = A1 row | A2 rows.
+     getitem_fn_sel / getitem_mat_sel N .. o dtx drx sel : __getitem__(sel) of the two classes on the object o built by
+         `factory`, dtx / drx the dtypes of the tx / rx index arrays (DtInt, DtUInt, DtUInt64, DtBool, DtFloat).
+     expand_sel ng sel = the grid points an index of the FIRST dimension designates, and whether the axis is dropped;
+     grid_selector sel: at most one int / slice / list / mask, not preceded by an Ellipsis, no None.
+     spec_sel .. S bad sel = the rows spec_amp of these grid points (GRaise bad when an element index is out of range).
+     model_amplitudes_factory tx rx view rw scattering a : the factory on the RayWeights namedtuple (dictionaries =
+         association lists keyed by the path's number) and the dictionary of scattering functions / matrices.
+     ray_weights_for_views_full N paths views f width ud ub ut ua save_debug : the namedtuple, paths = (path, traced?). *)
+From Arim Require Import Model.AmplitudesGlue Proofs.AmplitudesGlueProofs.
+
+(* ----- 6.1 Python slices, the chunk selectors ----- *)
+
+(* list(range(n))[start:stop:step] for ANY bounds and step (negative, beyond the ends, missing): every index lies on
+   the axis — a slice never raises IndexError and never wraps — and no index is repeated *)
+Theorem slice_never_leaves_the_axis : forall n start stop step idx,
+  slice_indices n start stop step = GOk idx -> Forall (in_axis n) idx /\ NoDup idx.
+Proof. intros n start stop step idx H. exact (conj (slice_indices_in_axis n start stop step idx H) (slice_indices_nodup n start stop step idx H)). Qed.
+
+(* model_amplitudes[:] designates every grid point, in order *)
+Theorem slice_colon_is_every_point : forall n, slice_indices n None None None = GOk (all_points n).
+Proof. exact slice_all. Qed.
+
+(* model_amplitudes[a:b], 0 <= a, b: the clipped half-open range *)
+Theorem slice_is_clipped_range : forall n a b,
+  slice_indices n (Some (Z.of_nat a)) (Some (Z.of_nat b)) None = GOk (map Z.of_nat (range_of (Nat.min a n, Nat.min b n))).
+Proof. exact slice_range. Qed.
+
+(* the selector (slice(i*b, (i+1)*b), Ellipsis) that helpers.chunk_array yields to the two sensitivity functions IS an
+   index of the first dimension and designates exactly the list of grid points that sens_loop (section 4) passes *)
+Theorem chunk_selectors_are_the_chunks : forall ng b i,
+  grid_selector (chunk_selector b i) = true /\
+  expand_sel ng (chunk_selector b i) = GOk (map Z.of_nat (range_of (chunk ng b i)), false).
+Proof. exact chunk_selector_expands. Qed.
+
+(* ----- 6.2 the index forms of ModelAmplitudes.__getitem__ ----- *)
+
+(* for EVERY index of the first dimension — int (first axis dropped), slice with any bounds and step, Ellipsis, (),
+   index list, boolean mask, and tuples of one of them with an Ellipsis after it — both classes are the index-level
+   definition on the designated grid points; the exceptions too: IndexError (int / list entry off the axis, mask of
+   another length, two Ellipsis), ValueError (step 0), and an element index off the probe (IndexError in the function
+   class; undefined in the matrix class).  Any integer dtype of tx / rx, booleans included *)
+Theorem amplitude_selector_indexing_fn : forall (T : Type) (N : Num T) tx rx ne ng Qtx Qrx Ttx Trx a o,
+  length tx = length rx -> factory tx rx ne ng Qtx Qrx Ttx Trx a = Some o ->
+  forall (S : T -> T -> T * T) dtx drx sel,
+  grid_selector sel = true -> idx_ok_fn dtx = true -> idx_ok_fn drx = true ->
+  getitem_fn_sel N S o dtx drx sel = spec_sel N tx rx ne ng Qtx Qrx Ttx Trx a S EIndex sel.
+Proof. intros T N tx rx ne ng Qtx Qrx Ttx Trx a o H1 H2. exact (getitem_fn_sel_is_spec N tx rx ne ng Qtx Qrx Ttx Trx a o H1 H2). Qed.
+
+Theorem amplitude_selector_indexing_mat : forall (T : Type) (N : Num T) tx rx ne ng Qtx Qrx Ttx Trx a o,
+  length tx = length rx -> factory tx rx ne ng Qtx Qrx Ttx Trx a = Some o ->
+  forall (P : T) (M : list (list (T * T))) dtx drx sel,
+  grid_selector sel = true -> idx_ok_mat dtx = true -> idx_ok_mat drx = true -> mat_ok M = true ->
+  getitem_mat_sel N P M o dtx drx sel = spec_sel N tx rx ne ng Qtx Qrx Ttx Trx a (interp_c N P M) EUnmodelled sel.
+Proof. intros T N tx rx ne ng Qtx Qrx Ttx Trx a o H1 H2. exact (getitem_mat_sel_is_spec N tx rx ne ng Qtx Qrx Ttx Trx a o H1 H2). Qed.
+
+(* model_amplitudes[sel] = (model_amplitudes[...])[sel]: whenever the full array has a value, indexing the object is
+   numpy-indexing that array (index2 = A[sel] on a 2-d array), for every index of the first dimension *)
+Theorem amplitude_selector_is_subarray_fn : forall (T : Type) (N : Num T) tx rx ne ng Qtx Qrx Ttx Trx a o,
+  length tx = length rx -> factory tx rx ne ng Qtx Qrx Ttx Trx a = Some o ->
+  forall (S : T -> T -> T * T) dtx drx F sel,
+  getitem_fn N S o (all_points ng) = Some F ->
+  grid_selector sel = true -> idx_ok_fn dtx = true -> idx_ok_fn drx = true ->
+  getitem_fn_sel N S o dtx drx sel = index2 ng (length tx) F sel.
+Proof. intros T N tx rx ne ng Qtx Qrx Ttx Trx a o H1 H2. exact (getitem_fn_sel_subarray N tx rx ne ng Qtx Qrx Ttx Trx a o H1 H2). Qed.
+
+Theorem amplitude_selector_is_subarray_mat : forall (T : Type) (N : Num T) tx rx ne ng Qtx Qrx Ttx Trx a o,
+  length tx = length rx -> factory tx rx ne ng Qtx Qrx Ttx Trx a = Some o ->
+  forall (P : T) (M : list (list (T * T))) dtx drx F sel,
+  getitem_mat N P M o (all_points ng) = Some F -> mat_ok M = true ->
+  grid_selector sel = true -> idx_ok_mat dtx = true -> idx_ok_mat drx = true ->
+  getitem_mat_sel N P M o dtx drx sel = index2 ng (length tx) F sel.
+Proof. intros T N tx rx ne ng Qtx Qrx Ttx Trx a o H1 H2. exact (getitem_mat_sel_subarray N tx rx ne ng Qtx Qrx Ttx Trx a o H1 H2). Qed.
+
+(* "identically for scattering given as functions or as matrices", selector by selector, exceptions included, when
+   the element indices are on the probe *)
+Theorem matrix_eq_function_on_selectors : forall (T : Type) (N : Num T) tx rx ne ng Qtx Qrx Ttx Trx a o,
+  length tx = length rx -> factory tx rx ne ng Qtx Qrx Ttx Trx a = Some o ->
+  forall (P : T) (M : list (list (T * T))) dtx drx sel,
+  grid_selector sel = true -> idx_ok_mat dtx = true -> idx_ok_mat drx = true -> mat_ok M = true ->
+  Forall (valid_index ne) tx -> Forall (valid_index ne) rx ->
+  getitem_mat_sel N P M o dtx drx sel = getitem_fn_sel N (interp_c N P M) o dtx drx sel.
+Proof. intros T N tx rx ne ng Qtx Qrx Ttx Trx a o H1 H2. exact (classes_agree_on_selectors N tx rx ne ng Qtx Qrx Ttx Trx a o H1 H2). Qed.
+
+(* the SAME array passed as tx and as rx (pulse-echo: tx is rx): the incident angle and the transmit weight still
+   come from the tx path's arrays, the scattered angle and the receive weight from the rx path's *)
+Theorem amplitude_same_index_array : forall (T : Type) (N : Num T) (S : T -> T -> T * T) idx ne ng Qtx Qrx Ttx Trx a o G,
+  factory idx idx ne ng Qtx Qrx Ttx Trx a = Some o ->
+  getitem_fn N S o G = spec_amp N S a ne ng Qtx Qrx Ttx Trx idx idx G.
+Proof. intros T N S idx ne ng Qtx Qrx Ttx Trx a o G H. exact (getitem_fn_is_spec N S idx idx ne ng Qtx Qrx Ttx Trx a o G eq_refl H). Qed.
+
+(* what the function class rejects, for any object: two or more indices (model_amplitudes[3, 7], [:, 0], ...) *)
+Theorem second_dimension_index_rejected : forall (T : Type) (N : Num T) (S : T -> T -> T * T) o dtx drx sel,
+  2 <= length (consumers sel) -> getitem_fn_sel N S o dtx drx sel = GRaise EIndex.
+Proof. intros T N S o dtx drx sel H. exact (fn_two_indices_rejected N S o dtx drx sel H). Qed.
+
+(* ... np.newaxis without an integer index (the explicit IndexError of the guard, or numpy's exception for the
+   other item) *)
+Theorem newaxis_rejected : forall (T : Type) (N : Num T) (S : T -> T -> T * T) o dtx drx sel,
+  has_none sel = true -> (forall z, consumers sel <> [GInt z]) ->
+  exists e, e <> EUnmodelled /\ getitem_fn_sel N S o dtx drx sel = GRaise e.
+Proof. intros T N S o dtx drx sel H1 H2. exact (fn_newaxis_rejected N S o dtx drx sel H1 H2). Qed.
+
+(* ... two Ellipsis, in both classes *)
+Theorem two_ellipsis_rejected_both_classes : forall (T : Type) (N : Num T) (S : T -> T -> T * T) o dtx drx (P : T) M sel,
+  2 <= count_dots sel -> has_none sel = false ->
+  getitem_fn_sel N S o dtx drx sel = GRaise EIndex /\ getitem_mat_sel N P M o dtx drx sel = GRaise EIndex.
+Proof. intros T N S o dtx drx P M sel H1 H2. exact (two_ellipsis_rejected N S o dtx drx P M sel H1 H2). Qed.
+
+(* FULL statement (docstring of ModelAmplitudes): "Only the first dimension must be indexed ... Indexing the second
+   dimension will fail", i.e. every selector that passes the guard of the function class is an index of the first
+   dimension and returns rows of model_amplitudes[...].  REFUTED: model_amplitudes[..., 0] passes
+   (np.empty(numpoints)[..., 0] is 0-dimensional) and returns a value that is no row of model_amplitudes[...]
+   (2 elements, 3 grid points, exact rationals).  Replayed on the library: notes/prover_C08_TIE.md *)
+Theorem only_first_dimension_guard_refuted :
+  exists o F row,
+    factory [0; 1; 1; -1]%Z [1; 0; -1; 0]%Z 2 3
+      [[(1, 2); (3, -1); (1 # 2, 0)]; [(-2, 1); (0, 3); (5, 1 # 4)]]%Q
+      [[(2, 0); (1, 1); (-1, 2)]; [(3 # 2, -1); (4, 0); (0, -2)]]%Q
+      [[1 # 4; 1 # 2; 3 # 4]; [-(1 # 4); -(1 # 2); -(3 # 4)]]%Q
+      [[1 # 8; 3 # 8; 5 # 8]; [-(1 # 8); -(3 # 8); -(5 # 8)]]%Q (1 # 8)%Q = Some o /\
+    getitem_fn NumQ (fun x y => (1 + 2 * x + 3 * y, x * y)%Q) o (all_points 3) = Some F /\
+    getitem_fn_sel NumQ (fun x y => (1 + 2 * x + 3 * y, x * y)%Q) o DtInt DtInt [GDots; GInt 0] = GOk (A1 row) /\
+    length row = 4 /\ existsb (same_row row) F = false.
+Proof. exact guard_incomplete_witness. Qed.
+
+(* what model_amplitudes[..., e] does return, in general: the answer, for "grid point" e, of an object holding the
+   RayWeights arrays WITHOUT the great transposition — tx / rx are read as grid-point indices, e as an element index
+   (IndexError unless e is both a valid grid index, for the guard, and a valid element index, for the arrays) *)
+Theorem ellipsis_first_reads_untransposed : forall (T : Type) (N : Num T) tx rx ne ng Qtx Qrx Ttx Trx a o,
+  length tx = length rx -> factory tx rx ne ng Qtx Qrx Ttx Trx a = Some o ->
+  forall (S : T -> T -> T * T) dtx drx e, idx_ok_fn dtx = true -> idx_ok_fn drx = true ->
+  getitem_fn_sel N S o dtx drx [GDots; GInt e]
+  = if zvalid ng e && zvalid ne e
+    then of_option EIndex (omap (shape_result true) (getitem_fn N S (mkAmp tx rx Qtx Qrx Ttx Trx a ne ng) [e]))
+    else GRaise EIndex.
+Proof. intros T N tx rx ne ng Qtx Qrx Ttx Trx a o H1 H2. exact (fn_ellipsis_then_int N tx rx ne ng Qtx Qrx Ttx Trx a o H1 H2). Qed.
+
+(* the dtype of the index arrays: a float tx is a TypeError (np.take) once the selector has passed ... *)
+Theorem float_tx_is_a_typeerror_fn : forall (T : Type) (N : Num T) tx rx ne ng Qtx Qrx Ttx Trx a o,
+  factory tx rx ne ng Qtx Qrx Ttx Trx a = Some o ->
+  forall (S : T -> T -> T * T) drx sel gd, grid_selector sel = true -> expand_sel ng sel = GOk gd ->
+  getitem_fn_sel N S o DtFloat drx sel = GRaise EType.
+Proof. intros T N tx rx ne ng Qtx Qrx Ttx Trx a o H. exact (fn_float_tx_typeerror N tx rx ne ng Qtx Qrx Ttx Trx a o H). Qed.
+
+(* ... the gufunc of the matrix class accepts neither float nor uint64 (the function class accepts uint64) ... *)
+Theorem bad_index_dtype_is_a_typeerror_mat : forall (T : Type) (N : Num T) tx rx ne ng Qtx Qrx Ttx Trx a o,
+  factory tx rx ne ng Qtx Qrx Ttx Trx a = Some o ->
+  forall (P : T) (M : list (list (T * T))) dtx drx sel gd, grid_selector sel = true -> expand_sel ng sel = GOk gd ->
+  idx_ok_mat dtx && idx_ok_mat drx = false ->
+  getitem_mat_sel N P M o dtx drx sel = GRaise EType.
+Proof. intros T N tx rx ne ng Qtx Qrx Ttx Trx a o H. exact (mat_bad_dtype_typeerror N tx rx ne ng Qtx Qrx Ttx Trx a o H). Qed.
+
+(* tx and rx of different lengths: ValueError in the matrix class (signature (n),(n)) ... *)
+Theorem length_mismatch_is_a_valueerror_mat : forall (T : Type) (N : Num T) tx rx ne ng Qtx Qrx Ttx Trx a o,
+  factory tx rx ne ng Qtx Qrx Ttx Trx a = Some o ->
+  forall (P : T) (M : list (list (T * T))) dtx drx sel gd, grid_selector sel = true -> expand_sel ng sel = GOk gd ->
+  idx_ok_mat dtx = true -> idx_ok_mat drx = true -> length tx <> length rx ->
+  getitem_mat_sel N P M o dtx drx sel = GRaise EValue.
+Proof. intros T N tx rx ne ng Qtx Qrx Ttx Trx a o H. exact (mat_length_mismatch_valueerror N tx rx ne ng Qtx Qrx Ttx Trx a o H). Qed.
+
+(* ... in the function class only when the two lengths do not broadcast (neither equal nor one of them 1) ... *)
+Theorem length_mismatch_is_a_valueerror_fn : forall (T : Type) (N : Num T) tx rx ne ng Qtx Qrx Ttx Trx a o,
+  factory tx rx ne ng Qtx Qrx Ttx Trx a = Some o ->
+  forall (S : T -> T -> T * T) dtx drx sel gd, grid_selector sel = true -> expand_sel ng sel = GOk gd ->
+  idx_ok_fn dtx = true -> idx_ok_fn drx = true ->
+  Forall (valid_index ne) tx -> Forall (valid_index ne) rx ->
+  broadcastable (length tx) (length rx) = false ->
+  getitem_fn_sel N S o dtx drx sel = GRaise EValue.
+Proof. intros T N tx rx ne ng Qtx Qrx Ttx Trx a o H. exact (fn_length_mismatch_valueerror N tx rx ne ng Qtx Qrx Ttx Trx a o H). Qed.
+
+(* ... and a single receiver index is broadcast: the same answer, for every selector, as rx = [j] * numtimetraces *)
+Theorem single_rx_index_is_broadcast_fn : forall (T : Type) (N : Num T) (S : T -> T -> T * T) tx j qtx qrx ttx trx a np nel dtx drx sel,
+  1 <= length tx ->
+  getitem_fn_sel N S (mkAmp tx [j] qtx qrx ttx trx a np nel) dtx drx sel
+  = getitem_fn_sel N S (mkAmp tx (repeat j (length tx)) qtx qrx ttx trx a np nel) dtx drx sel.
+Proof. intros T N S tx j qtx qrx ttx trx a np nel dtx drx sel H. exact (fn_single_rx_is_broadcast N S tx j qtx qrx ttx trx a np nel dtx drx sel H). Qed.
+
+(* ----- 6.3 model_amplitudes_factory on the RayWeights namedtuple ----- *)
+
+(* a value: every dictionary lookup succeeded (scattering[view.scat_key()], the tx path among the TRANSMIT weights, the
+   rx path among the RECEIVE weights, both among the scattering angles), the four shapes agree, the object holds the
+   transposed arrays, the caller's tx / rx and the scattering object of THAT key *)
+Theorem factory_value : forall (T : Type) tx rx v (rw : ray_weights_nt (T := T)) scat a ob,
+  model_amplitudes_factory tx rx v rw scat a = GOk ob ->
+  exists sobj Qtx Qrx Ttx Trx o,
+    sget scat (v_scat v) = Some sobj /\
+    dget (rw_txd rw) (v_tx v) = Some Qtx /\ dget (rw_rxd rw) (v_rx v) = Some Qrx /\
+    dget (rw_angd rw) (v_tx v) = Some Ttx /\ dget (rw_angd rw) (v_rx v) = Some Trx /\
+    shapes_agree Qtx Qrx Ttx Trx /\
+    factory (ix_vals tx) (ix_vals rx) (fst (shape2 Qtx)) (snd (shape2 Qtx)) Qtx Qrx Ttx Trx a = Some o /\
+    ob = mkObj sobj o (ix_dtype tx) (ix_dtype rx).
+Proof. intros T tx rx v rw scat a ob H. exact (maf_inv tx rx v rw scat a ob H). Qed.
+
+Theorem factory_keyerror_iff : forall (T : Type) tx rx v (rw : ray_weights_nt (T := T)) scat a,
+  model_amplitudes_factory tx rx v rw scat a = GRaise EKey
+  <-> sget scat (v_scat v) = None \/ dget (rw_txd rw) (v_tx v) = None \/ dget (rw_rxd rw) (v_rx v) = None
+      \/ dget (rw_angd rw) (v_tx v) = None \/ dget (rw_angd rw) (v_rx v) = None.
+Proof. intros T tx rx v rw scat a. exact (maf_keyerror_iff tx rx v rw scat a). Qed.
+
+Theorem factory_assertionerror_iff : forall (T : Type) tx rx v (rw : ray_weights_nt (T := T)) scat a,
+  model_amplitudes_factory tx rx v rw scat a = GRaise EAssertion
+  <-> exists sobj Qtx Qrx Ttx Trx,
+        sget scat (v_scat v) = Some sobj /\
+        dget (rw_txd rw) (v_tx v) = Some Qtx /\ dget (rw_rxd rw) (v_rx v) = Some Qrx /\
+        dget (rw_angd rw) (v_tx v) = Some Ttx /\ dget (rw_angd rw) (v_rx v) = Some Trx /\
+        ~ shapes_agree Qtx Qrx Ttx Trx.
+Proof. intros T tx rx v rw scat a. exact (maf_assertion_iff tx rx v rw scat a). Qed.
+
+Theorem factory_defined_on_agreeing_arrays : forall (T : Type) tx rx v (rw : ray_weights_nt (T := T)) scat a sobj Qtx Qrx Ttx Trx,
+  sget scat (v_scat v) = Some sobj ->
+  dget (rw_txd rw) (v_tx v) = Some Qtx -> dget (rw_rxd rw) (v_rx v) = Some Qrx ->
+  dget (rw_angd rw) (v_tx v) = Some Ttx -> dget (rw_angd rw) (v_rx v) = Some Trx ->
+  is_array Qtx = true -> is_array Qrx = true -> is_array Ttx = true -> is_array Trx = true ->
+  shapes_agree Qtx Qrx Ttx Trx ->
+  exists o, factory (ix_vals tx) (ix_vals rx) (fst (shape2 Qtx)) (snd (shape2 Qtx)) Qtx Qrx Ttx Trx a = Some o /\
+            model_amplitudes_factory tx rx v rw scat a = GOk (mkObj sobj o (ix_dtype tx) (ix_dtype rx)).
+Proof. intros T tx rx v rw scat a. exact (maf_defined tx rx v rw scat a). Qed.
+
+(* .shape = (numpoints, numtimetraces) = (columns of the tx weights, tx.shape[0]); numelements = their rows; rx, the
+   scattering and its kind play no part *)
+Theorem factory_object_shape : forall (T : Type) tx rx v (rw : ray_weights_nt (T := T)) scat a ob Qtx,
+  model_amplitudes_factory tx rx v rw scat a = GOk ob -> dget (rw_txd rw) (v_tx v) = Some Qtx ->
+  mo_shape ob = (snd (shape2 Qtx), length (ix_vals tx)) /\ ma_numelements (mo_amp ob) = fst (shape2 Qtx) /\
+  mo_txdt ob = ix_dtype tx /\ mo_rxdt ob = ix_dtype rx.
+Proof. intros T tx rx v rw scat a ob Qtx H1 H2. exact (maf_shape tx rx v rw scat a ob Qtx H1 H2). Qed.
+
+(* end to end: the object the factory returns, indexed by any index of the first dimension, is the index-level
+   definition on the arrays found in the dictionaries, with the scattering of the view's key — itself for a function,
+   its bilinear interpolant for a matrix *)
+Theorem factory_getitem_is_the_definition : forall (T : Type) (N : Num T) tx rx v (rw : ray_weights_nt (T := T)) scat a
+    (P : T) ob sobj Qtx Qrx Ttx Trx sel,
+  model_amplitudes_factory tx rx v rw scat a = GOk ob ->
+  sget scat (v_scat v) = Some sobj ->
+  dget (rw_txd rw) (v_tx v) = Some Qtx -> dget (rw_rxd rw) (v_rx v) = Some Qrx ->
+  dget (rw_angd rw) (v_tx v) = Some Ttx -> dget (rw_angd rw) (v_rx v) = Some Trx ->
+  length (ix_vals tx) = length (ix_vals rx) ->
+  idx_ok_mat (ix_dtype tx) = true -> idx_ok_mat (ix_dtype rx) = true ->
+  match sobj with ScatFn _ => True | ScatMat M => mat_ok M = true end ->
+  grid_selector sel = true ->
+  mo_getitem N P ob sel
+  = spec_sel N (ix_vals tx) (ix_vals rx) (fst (shape2 Qtx)) (snd (shape2 Qtx)) Qtx Qrx Ttx Trx a
+             (scat_fun N P sobj) (match sobj with ScatFn _ => EIndex | ScatMat _ => EUnmodelled end) sel.
+Proof. intros T N tx rx v rw scat a. exact (maf_getitem_is_spec N tx rx v rw scat a). Qed.
+
+(* ----- 6.4 ray_weights_for_views: save_debug, untraced paths, any sub-collection of views ----- *)
+
+(* the full function refines the reduced one of section 5.1: same success, and the three dictionaries hold key by key
+   what rw_tx / rw_rx / rw_angles read — so every theorem of 5.1 reads on the namedtuple *)
+Theorem ray_weights_full_refines_reduced : forall (T : Type) (N : Num T) paths views f width ud ub ut ua sd R,
+  ray_weights_for_views_full N paths views f width ud ub ut ua sd = Some R ->
+  exists rw, ray_weights_for_views N (map gp_path paths) views f width ud ub ut ua = Some rw /\
+    forall k, dget (rw_txd R) k = rw_tx rw k /\ dget (rw_rxd R) k = rw_rx rw k /\ dget (rw_angd R) k = rw_angles rw k.
+Proof. intros T N paths views f width ud ub ut ua sd R H. exact (full_refines_reduced N paths views f width ud ub ut ua sd R H). Qed.
+
+Theorem ray_weights_reduced_gives_full : forall (T : Type) (N : Num T) paths views f width ud ub ut ua sd rw,
+  (forall k gp, In k (nodup Nat.eq_dec (map v_tx views ++ map v_rx views)) -> nth_error paths k = Some gp -> gp_traced gp = true) ->
+  ray_weights_for_views N (map gp_path paths) views f width ud ub ut ua = Some rw ->
+  exists R, ray_weights_for_views_full N paths views f width ud ub ut ua sd = Some R.
+Proof. intros T N paths views f width ud ub ut ua sd rw H1 H2. exact (reduced_gives_full N paths views f width ud ub ut ua sd rw H1 H2). Qed.
+
+(* a path of the views whose rays were not traced: ValueError, whatever else *)
+Theorem ray_weights_untraced_path_raises : forall (T : Type) (N : Num T) paths views f width ud ub ut ua sd k gp,
+  In k (nodup Nat.eq_dec (map v_tx views ++ map v_rx views)) -> nth_error paths k = Some gp -> gp_traced gp = false ->
+  ray_weights_for_views_full N paths views f width ud ub ut ua sd = None.
+Proof. intros T N paths views f width ud ub ut ua sd k gp H1 H2 H3. exact (untraced_path_raises N paths views f width ud ub ut ua sd k gp H1 H2 H3). Qed.
+
+(* save_debug changes nothing but the two debug dictionaries: None without it; with it one entry per entry of the
+   corresponding weights dictionary, same paths, same order; the weights, the angles and the success are the same *)
+Theorem ray_weights_save_debug_only_adds_debug : forall (T : Type) (N : Num T) paths views f width ud ub ut ua R1,
+  ray_weights_for_views_full N paths views f width ud ub ut ua true = Some R1 ->
+  exists R0 dtx drx,
+    ray_weights_for_views_full N paths views f width ud ub ut ua false = Some R0 /\
+    rw_txd R0 = rw_txd R1 /\ rw_rxd R0 = rw_rxd R1 /\ rw_angd R0 = rw_angd R1 /\
+    rw_txdbg R0 = None /\ rw_rxdbg R0 = None /\
+    rw_txdbg R1 = Some dtx /\ rw_rxdbg R1 = Some drx /\
+    map fst dtx = map fst (rw_txd R1) /\ map fst drx = map fst (rw_rxd R1).
+Proof. intros T N paths views f width ud ub ut ua R1 H. exact (save_debug_only_adds_debug N paths views f width ud ub ut ua R1 H). Qed.
+
+Theorem ray_weights_save_debug_never_fails_alone : forall (T : Type) (N : Num T) paths views f width ud ub ut ua R0,
+  ray_weights_for_views_full N paths views f width ud ub ut ua false = Some R0 ->
+  exists R1, ray_weights_for_views_full N paths views f width ud ub ut ua true = Some R1.
+Proof. intros T N paths views f width ud ub ut ua R0 H. exact (without_save_debug_iff_with N paths views f width ud ub ut ua R0 H). Qed.
+
+(* the debug arrays ARE the factors, ray by ray: (weights[e][s], debug[e][s]) = the pair returned by ONE call of the
+   one-ray function, so weights_factorise_* and switch_off_is_one_* (section 1) apply to them *)
+Theorem ray_weights_debug_are_the_factors_tx : forall (T : Type) (N : Num T) paths views f width ud ub ut ua R D k W F e s w,
+  ray_weights_for_views_full N paths views f width ud ub ut ua true = Some R ->
+  rw_txdbg R = Some D -> dget (rw_txd R) k = Some W -> dget D k = Some F -> get2 W e s = Some w ->
+  exists gp r fac, nth_error paths k = Some gp /\ get2 (p_rays (gp_path gp)) e s = Some r /\ get2 F e s = Some fac /\
+    tx_ray_weights N ud ut ub ua width f (p_couplant (gp_path gp)) r = Some (w, fac).
+Proof. intros T N paths views f width ud ub ut ua R D k W F e s w. exact (debug_factors_tx N paths views f width ud ub ut ua R D k W F e s w). Qed.
+
+Theorem ray_weights_debug_are_the_factors_rx : forall (T : Type) (N : Num T) paths views f width ud ub ut ua R D k W F e s w,
+  ray_weights_for_views_full N paths views f width ud ub ut ua true = Some R ->
+  rw_rxdbg R = Some D -> dget (rw_rxd R) k = Some W -> dget D k = Some F -> get2 W e s = Some w ->
+  exists gp r fac, nth_error paths k = Some gp /\ get2 (p_rays (gp_path gp)) e s = Some r /\ get2 F e s = Some fac /\
+    rx_ray_weights N ud ut ub ua width f (p_couplant (gp_path gp)) (p_block (gp_path gp)) r = Some (w, fac).
+Proof. intros T N paths views f width ud ub ut ua R D k W F e s w. exact (debug_factors_rx N paths views f width ud ub ut ua R D k W F e s w). Qed.
+
+(* which paths have an entry where: the distinct tx paths, the distinct rx paths, every distinct path *)
+Theorem ray_weights_dictionary_keys : forall (T : Type) (N : Num T) paths views f width ud ub ut ua sd R,
+  ray_weights_for_views_full N paths views f width ud ub ut ua sd = Some R ->
+  let all := nodup Nat.eq_dec (map v_tx views ++ map v_rx views) in
+  map fst (rw_txd R) = filter (fun k => mem k (map v_tx views)) all /\
+  map fst (rw_rxd R) = filter (fun k => mem k (map v_rx views)) all /\
+  map fst (rw_angd R) = all.
+Proof. intros T N paths views f width ud ub ut ua sd R H. exact (dictionary_keys N paths views f width ud ub ut ua sd R H). Qed.
+
+(* a single view: its tx path gets TRANSMIT weights only, its rx path RECEIVE weights only (both when they are the
+   same path) *)
+Theorem ray_weights_single_view : forall (T : Type) (N : Num T) paths v f width ud ub ut ua sd R,
+  ray_weights_for_views_full N paths [v] f width ud ub ut ua sd = Some R ->
+  map fst (rw_txd R) = [v_tx v] /\ map fst (rw_rxd R) = [v_rx v] /\
+  map fst (rw_angd R) = (if v_rx v =? v_tx v then [v_tx v] else [v_tx v; v_rx v]).
+Proof. intros T N paths v f width ud ub ut ua sd R H. exact (single_view_dictionaries N paths v f width ud ub ut ua sd R H). Qed.
+
+(* ANY sub-collection of the views (one view, another order, repeats): succeeds when the larger call does, and what
+   its views' paths get is what they got in the larger call — independent of which other views are requested *)
+Theorem ray_weights_subset_of_views_consistent : forall (T : Type) (N : Num T) paths f views views' width ud ub ut ua sd R,
+  incl views' views ->
+  ray_weights_for_views_full N paths views f width ud ub ut ua sd = Some R ->
+  exists R', ray_weights_for_views_full N paths views' f width ud ub ut ua sd = Some R' /\
+    forall v, In v views' ->
+      dget (rw_txd R') (v_tx v) = dget (rw_txd R) (v_tx v) /\
+      dget (rw_rxd R') (v_rx v) = dget (rw_rxd R) (v_rx v) /\
+      dget (rw_angd R') (v_tx v) = dget (rw_angd R) (v_tx v) /\
+      dget (rw_angd R') (v_rx v) = dget (rw_angd R) (v_rx v).
+Proof. intros T N paths f views views' width ud ub ut ua sd R H1 H2. exact (subset_of_views_consistent N paths f views views' width ud ub ut ua sd R H1 H2). Qed.
+
+(* no view: empty dictionaries, whatever the other arguments (not even a missing element width is noticed) *)
+Theorem ray_weights_no_views : forall (T : Type) (N : Num T) paths f width ud ub ut ua sd,
+  ray_weights_for_views_full N paths [] f width ud ub ut ua sd
+  = Some (mkRW [] [] (if sd then Some [] else None) (if sd then Some [] else None) []).
+Proof. intros T N paths f width ud ub ut ua sd. exact (no_views_empty N paths f width ud ub ut ua sd). Qed.
+
+(* probe_element_width=None: ValueError as soon as there is a view IF the directivity is enabled ... *)
+Theorem ray_weights_missing_width_raises : forall (T : Type) (N : Num T) paths f views ub ut ua sd,
+  views <> [] -> ray_weights_for_views_full N paths views f None true ub ut ua sd = None.
+Proof. intros T N paths f views ub ut ua sd H. exact (missing_width_raises N paths f views ub ut ua sd H). Qed.
+
+(* ... and not read at all when it is disabled: None, or any value, the same result *)
+Theorem ray_weights_width_unused_without_directivity : forall (T : Type) (N : Num T) paths f views w w' ub ut ua sd,
+  ray_weights_for_views_full N paths views f w false ub ut ua sd
+  = ray_weights_for_views_full N paths views f w' false ub ut ua sd.
+Proof. intros T N paths f views w w' ub ut ua sd. exact (width_unused_without_directivity N paths f views w w' ub ut ua sd). Qed.
+
+(* ----- 6.5 ray_weights_for_views, then model_amplitudes_factory ----- *)
+
+Theorem computed_weights_of_a_view_of_the_call : forall (T : Type) (N : Num T) paths views f width ud ub ut ua sd R v,
+  ray_weights_for_views_full N paths views f width ud ub ut ua sd = Some R -> In v views ->
+  exists gpt gpr Qtx Qrx,
+    nth_error paths (v_tx v) = Some gpt /\ nth_error paths (v_rx v) = Some gpr /\
+    path_tx_weights N ud ut ub ua width f (gp_path gpt) = Some Qtx /\
+    path_rx_weights N ud ut ub ua width f (gp_path gpr) = Some Qrx /\
+    dget (rw_txd R) (v_tx v) = Some Qtx /\ dget (rw_rxd R) (v_rx v) = Some Qrx /\
+    dget (rw_angd R) (v_tx v) = Some (p_angles (gp_path gpt)) /\
+    dget (rw_angd R) (v_rx v) = Some (p_angles (gp_path gpr)).
+Proof. intros T N paths views f width ud ub ut ua sd R v H Hv. exact (computed_weights_of_a_view N paths views f width ud ub ut ua sd R H v Hv). Qed.
+
+(* for a view of the call whose scattering key is provided the factory never raises KeyError ... *)
+Theorem factory_no_keyerror_for_a_view_of_the_call : forall (T : Type) (N : Num T) paths views f width ud ub ut ua sd R tx rx v scat a,
+  ray_weights_for_views_full N paths views f width ud ub ut ua sd = Some R ->
+  In v views -> sget scat (v_scat v) <> None ->
+  model_amplitudes_factory tx rx v R scat a <> GRaise EKey.
+Proof. intros T N paths views f width ud ub ut ua sd R tx rx v scat a H. exact (factory_no_keyerror_for_views_of_the_call N paths views f width ud ub ut ua sd R H tx rx v scat a). Qed.
+
+(* ... and always does for a view through whose tx path no view of the call transmits, or through whose rx path none
+   receives — even when that path has an entry in the other dictionary (e.g. the reciprocal view of the only view) *)
+Theorem factory_keyerror_for_a_foreign_path : forall (T : Type) (N : Num T) paths views f width ud ub ut ua sd R tx rx v scat a,
+  ray_weights_for_views_full N paths views f width ud ub ut ua sd = Some R ->
+  ~ In (v_tx v) (map v_tx views) \/ ~ In (v_rx v) (map v_rx views) ->
+  model_amplitudes_factory tx rx v R scat a = GRaise EKey.
+Proof. intros T N paths views f width ud ub ut ua sd R tx rx v scat a H. exact (factory_keyerror_for_foreign_path N paths views f width ud ub ut ua sd R H tx rx v scat a). Qed.
+
+(* ----- 6.6 exactly zero weights ----- *)
+(* over the reals (every scattering value finite): a transmit weight Q[tx_k][g] or a receive weight Q'[rx_k][g] that is
+   exactly zero makes P[p][k] exactly zero, whatever S, the angles and the other weight *)
+Theorem zero_weight_gives_zero_coefficient : forall (S : R -> R -> R * R) a ne ng Qtx Qrx Ttx Trx tx rx G P p k zg zi zj g i j,
+  spec_amp NumR S a ne ng Qtx Qrx Ttx Trx tx rx G = Some P ->
+  nth_error G p = Some zg -> nth_error tx k = Some zi -> nth_error rx k = Some zj ->
+  norm_index ng zg = Some g -> norm_index ne zi = Some i -> norm_index ne zj = Some j ->
+  get2 Qtx i g = Some (0%R, 0%R) \/ get2 Qrx j g = Some (0%R, 0%R) ->
+  get2 P p k = Some (0%R, 0%R).
+Proof. exact zero_weight_zero_coefficient. Qed.
+
+(* ===== non-vacuity of section 6 ======================================================================================= *)
+Section Examples6.
+  Local Open Scope Q_scope.
+  Let cq (x y : Q) : Q * Q := (x, y).
+  (* the 2-element, 3-grid-point arrays of the examples above *)
+  Let Qtx := [[cq 1 2; cq 3 (-1); cq (1#2) 0]; [cq (-2) 1; cq 0 3; cq 5 (1#4)]].
+  Let Qrx := [[cq 2 0; cq 1 1; cq (-1) 2]; [cq (3#2) (-1); cq 4 0; cq 0 (-2)]].
+  Let Ttx := [[1#4; 1#2; 3#4]; [-(1#4); -(1#2); -(3#4)]].
+  Let Trx := [[1#8; 3#8; 5#8]; [-(1#8); -(3#8); -(5#8)]].
+  Let S (x y : Q) : Q * Q := (1 + 2 * x + 3 * y, x * y).
+  Let tx := [0; 1; 1; -1]%Z.
+  Let rx := [1; 0; -1; 0]%Z.
+  Let Mc : list (list (Q * Q)) := [[cq 2 1; cq 2 1]; [cq 2 1; cq 2 1]].
+  Let rw0 := mkRW [(0%nat, Qtx)] [(1%nat, Qrx)] None None [(0%nat, Ttx); (1%nat, Trx)].
+  Let vw := mkView 0 1 (ModeL, ModeL).
+  Let fac sc := model_amplitudes_factory (mkIdx DtInt tx) (mkIdx DtInt rx) vw rw0 sc (1#8).
+  Let gi sc dtx drx sel :=
+    match model_amplitudes_factory (mkIdx dtx tx) (mkIdx drx rx) vw rw0 sc (1#8) with
+    | GOk ob => mo_getitem NumQ 0 ob sel
+    | GRaise e => GRaise e
+    end.
+  Let sc_fn := [((ModeL, ModeL), ScatFn S)].
+  Let sc_mat := [((ModeL, ModeL), ScatMat Mc)].
+
+  (* slices: list(range(5))[::-2], [-2:], [7:-9:-1], [1:1], step 0 *)
+  Example slices_example :
+    slice_indices 5 None None (Some (-2)%Z) = GOk [4; 2; 0]%Z /\
+    slice_indices 5 (Some (-2)%Z) None None = GOk [3; 4]%Z /\
+    slice_indices 5 (Some 7%Z) (Some (-9)%Z) (Some (-1)%Z) = GOk [4; 3; 2; 1; 0]%Z /\
+    slice_indices 5 (Some 1%Z) (Some 1%Z) None = GOk [] /\
+    slice_indices 5 None None (Some 0%Z) = GRaise EValue /\
+    expand_sel 11 (chunk_selector 4 2) = GOk ([8; 9; 10]%Z, false).
+  Proof. vm_compute. repeat split; reflexivity. Qed.
+
+  (* the hypotheses of the selector theorems hold, and the index forms give: the row of grid point 0 (axis dropped);
+     the rows of grid points 2 and 0 for [2, -3], for the mask and for [::-2]; exceptions of the right kind; the
+     matrix class (constant matrix 2 + i) the products (2 + i) Q Q' *)
+  Example selectors_example :
+    (exists ob, fac sc_fn = GOk ob /\ mo_shape ob = (3, 4)%nat /\ ma_numelements (mo_amp ob) = 2%nat) /\
+    grid_selector [GSlice (Some 0%Z) (Some 2%Z) None; GDots] = true /\
+    gi sc_fn DtInt DtInt [GInt 0] = GOk (A1 [(29 # 16, 57 # 64); (-1, 1 # 2); (43 # 64, -(31 # 16)); (-1, 1 # 2)]) /\
+    omap (fun P => nth 1 P []) (match gi sc_fn DtInt DtUInt [GList [2; -3]%Z] with GOk (A2 P) => Some P | _ => None end)
+      = Some [(29 # 16, 57 # 64); (-1, 1 # 2); (43 # 64, -(31 # 16)); (-1, 1 # 2)] /\
+    gi sc_fn DtInt DtInt [GMask [true; false; true]] = gi sc_fn DtInt DtInt [GList [0; 2]%Z] /\
+    gi sc_fn DtInt DtInt [GSlice None None (Some (-2)%Z)] = gi sc_fn DtBool DtInt [GList [2; -3]%Z] /\
+    gi sc_fn DtInt DtInt [GDots] = gi sc_fn DtInt DtInt [] /\
+    gi sc_fn DtInt DtInt [GInt 3] = GRaise EIndex /\
+    gi sc_fn DtInt DtInt [GSlice None None (Some 0%Z); GDots] = GRaise EValue /\
+    gi sc_fn DtInt DtInt [GMask [true; false]] = GRaise EIndex /\
+    gi sc_fn DtInt DtInt [GInt 0; GInt 1] = GRaise EIndex /\
+    gi sc_fn DtInt DtInt [GNone] = GRaise EIndex /\
+    gi sc_fn DtInt DtInt [GDots; GDots] = GRaise EIndex /\
+    gi sc_fn DtFloat DtInt [GInt 0] = GRaise EType /\
+    gi sc_fn DtUInt64 DtUInt64 [GInt (-1)] = gi sc_fn DtInt DtInt [GInt 2] /\
+    gi sc_mat DtUInt64 DtInt [GInt 0] = GRaise EType /\
+    gi sc_mat DtInt DtInt [GInt 1] = GOk (A1 [(28, 4); (-9, 3); (-12, 24); (-9, 3)]) /\
+    gi [((ModeL, ModeL), ScatMat [[cq 2 1; cq 2 1; cq 2 1]; [cq 2 1; cq 2 1; cq 2 1]])] DtInt DtInt [GInt 1] = GRaise EValue.
+  Proof.
+    split; [eexists; split; [reflexivity|]; vm_compute; split; reflexivity|].
+    vm_compute. repeat split; reflexivity.
+  Qed.
+
+  (* tx and rx of other lengths: one receiver index is broadcast by the function class (same rows as [1; 1; 1; 1]),
+     lengths 4 and 2 are a ValueError in both classes, as is length 1 in the matrix class *)
+  Example lengths_example :
+    (match model_amplitudes_factory (mkIdx DtInt tx) (mkIdx DtInt [1]%Z) vw rw0 sc_fn (1#8) with
+     | GOk ob => mo_getitem NumQ 0 ob [GInt 0] | GRaise e => GRaise e end)
+    = GOk (A1 [(29 # 16, 57 # 64); (43 # 64, -(31 # 16)); (43 # 64, -(31 # 16)); (43 # 64, -(31 # 16))]) /\
+    (match model_amplitudes_factory (mkIdx DtInt tx) (mkIdx DtInt [0; 1]%Z) vw rw0 sc_fn (1#8) with
+     | GOk ob => mo_getitem NumQ 0 ob [GInt 0] | GRaise e => GRaise e end) = GRaise EValue /\
+    (match model_amplitudes_factory (mkIdx DtInt tx) (mkIdx DtInt [1]%Z) vw rw0 sc_mat (1#8) with
+     | GOk ob => mo_getitem NumQ 0 ob [GInt 0] | GRaise e => GRaise e end) = GRaise EValue.
+  Proof. vm_compute. repeat split; reflexivity. Qed.
+
+  (* the factory: missing scattering key, the reciprocal view (its tx path has no TRANSMIT weights), a path without
+     angles, arrays of different shapes (checked after the lookups) *)
+  Example factory_example :
+    fac [((ModeL, ModeT), ScatFn S)] = GRaise EKey /\
+    model_amplitudes_factory (mkIdx DtInt tx) (mkIdx DtInt rx) (mkView 1 0 (ModeL, ModeL)) rw0 sc_fn (1#8) = GRaise EKey /\
+    model_amplitudes_factory (mkIdx DtInt tx) (mkIdx DtInt rx) vw
+      (mkRW [(0%nat, Qtx)] [(1%nat, Qrx)] None None [(0%nat, Ttx)]) sc_fn (1#8) = GRaise EKey /\
+    model_amplitudes_factory (mkIdx DtInt tx) (mkIdx DtInt rx) vw
+      (mkRW [(0%nat, Qtx)] [(1%nat, map (firstn 2) Qrx)] None None [(0%nat, Ttx); (1%nat, Trx)]) sc_fn (1#8) = GRaise EAssertion /\
+    model_amplitudes_factory (mkIdx DtInt tx) (mkIdx DtInt rx) vw
+      (mkRW [(0%nat, Qtx)] [(1%nat, map (firstn 2) Qrx)] None None [(0%nat, Ttx); (1%nat, Trx)]) [] (1#8) = GRaise EKey.
+  Proof. vm_compute. repeat split; reflexivity. Qed.
+
+  (* ray_weights_for_views on the normal-incidence ray of the examples above (water -> steel, legs 1 and 3/4, 24 kHz):
+     two paths with that ray, the view (tx path 0, rx path 1), save_debug: the weights 1/33 and 32/33, their factors
+     (1, 2/33, 1/2, 1) and (1, 64/33, 1, 1), one dictionary entry where stated; without save_debug the same and no
+     debug; an untraced path, a missing width: errors; the width is not read without directivity; the sub-collection
+     [view] of [view; reciprocal view] gets the same entries; then the factory and an index *)
+  Let water : material (Q * Q) := mkMaterial (cq 1000 0) (cq 1500 0) (cq Qbad 0).
+  Let steel : material (Q * Q) := mkMaterial (cq 8000 0) (cq 6000 0) (cq 3000 0).
+  Let ray0 := mkRay 0 [mkIface FluidSolid true water steel water ModeL ModeL (cq 0 0)]
+                    [1500; 6000] [1; 3#4] [None; Some (AttConstant 0)] ModeL.
+  Let p0 := mkPath water steel [[ray0]] [[1#4]] [[1]].
+  Let p1 := mkPath water steel [[ray0]] [[1#2]] [[2]].
+  Let gps := [mkGPath p0 true; mkGPath p1 true].
+  Let v01 := mkView 0 1 (ModeL, ModeL).
+  Let v10 := mkView 1 0 (ModeL, ModeL).
+  Example ray_weights_full_example :
+    ray_weights_for_views_full NumQ gps [v01] 24000 (Some (1#1000)) true true true true true
+      = Some (mkRW [(0%nat, [[cq (1#33) 0]])] [(1%nat, [[cq (32#33) 0]])]
+                   (Some [(0%nat, [[(1, cq (2#33) 0, 1#2, 1)]])]) (Some [(1%nat, [[(1, cq (64#33) 0, 1, 1)]])])
+                   [(0%nat, [[1#4]]); (1%nat, [[1#2]])]) /\
+    ray_weights_for_views_full NumQ gps [v01] 24000 (Some (1#1000)) true true true true false
+      = Some (mkRW [(0%nat, [[cq (1#33) 0]])] [(1%nat, [[cq (32#33) 0]])] None None [(0%nat, [[1#4]]); (1%nat, [[1#2]])]) /\
+    ray_weights_for_views_full NumQ [mkGPath p0 true; mkGPath p1 false] [v01] 24000 (Some (1#1000)) true true true true false = None /\
+    ray_weights_for_views_full NumQ gps [v01] 24000 None true true true true false = None /\
+    ray_weights_for_views_full NumQ gps [v01] 24000 None false true true true false
+      = Some (mkRW [(0%nat, [[cq (1#33) 0]])] [(1%nat, [[cq (32#33) 0]])] None None [(0%nat, [[1#4]]); (1%nat, [[1#2]])]) /\
+    omap (fun R => (map fst (rw_txd R), map fst (rw_rxd R), map fst (rw_angd R), dget (rw_txd R) 0, dget (rw_rxd R) 1))
+         (ray_weights_for_views_full NumQ gps [v01; v10] 24000 (Some (1#1000)) true true true true false)
+      = Some ([1; 0]%nat, [1; 0]%nat, [1; 0]%nat, Some [[cq (1#33) 0]], Some [[cq (32#33) 0]]) /\
+    (match ray_weights_for_views_full NumQ gps [v01] 24000 (Some (1#1000)) true true true true false with
+     | Some R =>
+         (match model_amplitudes_factory (mkIdx DtInt [0; -1]%Z) (mkIdx DtInt [0; 0]%Z) v01 R
+                  [((ModeL, ModeL), ScatFn (fun x y : Q => (1 + 2 * x + 3 * y, x * y)))] (1#8) with
+          | GOk ob => mo_getitem NumQ 0 ob [GInt 0] | GRaise e => GRaise e end,
+          model_amplitudes_factory (mkIdx DtInt [0; -1]%Z) (mkIdx DtInt [0; 0]%Z) v10 R
+                  [((ModeL, ModeL), ScatFn (fun x y : Q => (1 + 2 * x + 3 * y, x * y)))] (1#8))
+     | None => (GRaise EUnmodelled, GRaise EUnmodelled)
+     end)
+    = (GOk (A1 [(76 # 1089, 1 # 726); (76 # 1089, 1 # 726)]), GRaise EKey).
+  Proof. vm_compute. repeat split; reflexivity. Qed.
+End Examples6.
+
+(* the hypotheses of zero_weight_gives_zero_coefficient are satisfiable: one element, one grid point, a zero transmit weight *)
+Example zero_weight_example :
+  exists P, spec_amp NumR (fun x y : R => (x + 1, y)%R) 0%R 1 1 [[(0%R, 0%R)]] [[(2%R, 1%R)]] [[3%R]] [[4%R]] [0%Z] [0%Z] [0%Z] = Some P /\
+            get2 P 0 0 = Some (0%R, 0%R).
+Proof.
+  eexists. split; [reflexivity|].
+  apply (zero_weight_gives_zero_coefficient (fun x y : R => (x + 1, y)%R) 0%R 1 1 [[(0%R, 0%R)]] [[(2%R, 1%R)]] [[3%R]] [[4%R]]
+           [0%Z] [0%Z] [0%Z] _ 0 0 0%Z 0%Z 0%Z 0 0 0 eq_refl eq_refl eq_refl eq_refl eq_refl eq_refl eq_refl).
+  left. reflexivity.
+Qed.
